@@ -904,3 +904,23 @@ Proof.
   unfold oracle, otrace. destruct (oneshot_sim_run ops _ _ orel_init) as (sp' & ->). reflexivity.
 Qed.
 
+
+(* ------------------------------------------ the split poll loses the wake-up (negative) *)
+Lemma oneshot_split_poll_loses_wakeup :
+  forall v : Z,
+  let ops := [SPollCheck 1%nat; SAtomic (Send 0%nat v); SAtomic (DropS 0%nat); SPollRegister 1%nat] in
+  let s := split_run oneshot_init ops in
+  map o_ret (split_outs oneshot_init ops) = [RPending; RUnit; RUnit; RUnit] /\
+  flat_map o_woke (split_outs oneshot_init ops) = [] /\
+  oi_waker (o_in s) = Some 1%nat /\ oi_data (o_in s) = Some v /\
+  o_ret (snd (oneshot_step s (Poll 2%nat))) = RReady v.
+Proof. intros v. cbv. repeat split; reflexivity. Qed.
+
+Lemma oneshot_split_poll_loses_disconnect_wakeup :
+  let ops := [SPollCheck 1%nat; SAtomic (DropS 0%nat); SPollRegister 1%nat] in
+  let s := split_run oneshot_init ops in
+  map o_ret (split_outs oneshot_init ops) = [RPending; RUnit; RUnit] /\
+  flat_map o_woke (split_outs oneshot_init ops) = [] /\
+  oi_waker (o_in s) = Some 1%nat /\
+  o_ret (snd (oneshot_step s (Poll 2%nat))) = RClosed.
+Proof. cbv. repeat split; reflexivity. Qed.
